@@ -948,6 +948,59 @@ Theorem set_contracts_table_thm : forall (s : state) (l : list (Z * Z)) (c : Z),
   contracts (fst (step s (SetContracts l))) c = assoc (rev l) c.
 Proof. reflexivity. Qed.
 
+(** ================= 9. griefing a bought licence; a history with everything in it ================= *)
+
+(** Anybody can make a sale undeliverable: once the client address has an account (one unit sent
+    to it is enough) the sale is refused — as clause 2 demands — and, inside the attestation
+    machinery, the event is consumed all the same.  C18 promises no licence for every paid sale
+    ("only if"), so this is outside the statement; the buyer's remedy is off-chain. *)
+Theorem sale_refused_once_account_exists_thm : forall (s : state) (chain contract : Z) (client : key) (amount : Z),
+  acct s escrow = Some Module -> acct s (fst client) <> None ->
+  snd (step s (Sale chain contract client amount)) <> Ok /\ fst (step s (Sale chain contract client amount)) = s.
+Proof.
+  intros s chain contract client amount He Ha.
+  assert (Hno : snd (step s (Sale chain contract client amount)) <> Ok).
+  { intros Hok. destruct (sale_all_or_nothing_thm s chain contract client amount) as [_ H].
+    destruct (H He Hok) as (_ & _ & g & fs & f & _ & _ & _ & _ & Hacc & _). contradiction. }
+  split; [exact Hno | now apply failed_op_is_noop].
+Qed.
+
+Example ex_dust_griefing :
+  let s := run ex_s0 [SetContracts [(1, 11)]; SetFeegranter 2; SetFunders [1]] in
+  let o := {| o_last := fun _ => 0; o_observed := [] |} in
+  let s1 := fst (step s (Send 1 4 0 1)) in                       (* one unit to the buyer's address *)
+  snd (step s (Sale 1 11 (4, false) 7)) = Ok /\                  (* without it the sale goes through *)
+  snd (step s1 (Sale 1 11 (4, false) 7)) = Err EAccountExists /\
+  try_sale 1 1 11 (4, false) 7 (o, s1) = ((oracle_advance o 1 1, s1), Ok) /\   (* consumed, nothing created *)
+  lics s1 = [].
+Proof. vm_compute. repeat split; reflexivity. Qed.
+
+(** non-vacuity of the theorems over extended histories *)
+Definition ex_xops : list xop :=
+  map XOp (firstn 5 ex_ops) ++
+  [ XFault 4 FErr (Register (3, false));          (* the payment of the activation fails: refused, nothing changes *)
+    XSetLegacy 0 FErr; XGenesis;
+    XOp (Register (3, false));
+    XFault 2 FPanic (Sale 1 11 (5, false) 7);     (* HasAccount panics inside the sale *)
+    XFault 9 FErr (Sale 1 11 (5, false) 7);       (* a ninth call does not exist with one funder: goes through *)
+    XOp (Tick 100); XSetLegacy 1 FErr; XSetLegacy 0 FErr ].
+
+Example ex_xhistory :
+  xinv ex_s0 /\ inv_sched ex_s0 /\ Forall xop_wf ex_xops /\ Forall xop_typed ex_xops /\
+  map snd (xtrace ex_s0 ex_xops) =
+    [Ok; Ok; Ok; Ok; Ok; Err EInjected; Ok; Ok; Ok; Panic; Ok; Ok; Err EInjected; Ok] /\
+  let s := xrun ex_s0 ex_xops in
+  lic_ids (lics s) = [5; 4] /\ bal s escrow 0 = 14000000 /\
+  clients s (4, false) = Some (1700000000, 1700000000) /\ clients s (5, false) = None /\
+  length (filter (xactivation_of 3) (xtrace ex_s0 ex_xops)) = 1%nat.
+Proof.
+  split; [split; [exact ex_inv | discriminate]|].
+  split; [apply init_sched; lia|].
+  split; [repeat constructor; cbn; try discriminate; intuition discriminate|].
+  split; [repeat constructor; cbn; lia|].
+  vm_compute. repeat split; reflexivity.
+Qed.
+
 (** ================= 6. the source facts of the second round ================= *)
 Lemma source_round2 :
   Gen.C18.create_collab_calls = ["accountKeeper.AddressCodec"; "accountKeeper.HasAccount"; "accountKeeper.NewAccount";
